@@ -7,7 +7,7 @@ from . import convlib as L
 
 ID = "C03"
 CHECKER = "chk_conv"
-THEOREMS = ["C03_pointwise", "C03_defining_formulas", "C03_roundtrip", "C03_two_step_paths", "C03_value_at_Q0"]
+THEOREMS = ['C03_pointwise', 'C03_defining_formulas', 'C03_roundtrip', 'C03_two_step_paths', 'C03_value_at_Q0', 'C03_rconv', 'C03_rconv_sharp', 'C03_rconv_needs_b', 'C03_guard_is_needed']
 RULE = ("all 12 ordered pairs x sampled grids (uniform/jittered/non-uniform/edge values incl. 0, negative, denormal), "
         "values around 1 / wide / integer / zero, material constants over 3 decades, bcoh of either sign; "
         "non-trivial = some function value or uncertainty non-zero; distinct by hash of the inputs")
